@@ -2,11 +2,13 @@ import Wx.Fs.Source
 namespace Wx.Driver.FsReal
 open Fsrc
 
-def parseMode (s : String) : Mode := if s == "R" then .R else if s == "N" then .N else .F
+/-- `Q` = the root recursively, with an event queue of 2 and a slow handler (overflow) -/
+def parseMode (s : String) : Mode := if s == "R" || s == "Q" then .R else if s == "N" then .N else .F
 
 def parseOp (failed : Bool) (s : String) : Op :=
   if failed then .failed else
   match s.splitOn ":" with
+  | ["burst", _] => .failed      -- more events than the queue holds: some are lost (runtime errors), nothing is owed
   | ["w", p] => .write (comps p)
   | ["mv", p, q] => .move (comps p) (comps q)
   | [_, p] => .touch (comps p)
